@@ -7,7 +7,7 @@
 From Coq Require Import ZArith List Bool Lia ZifyBool.
 From RecordUpdate Require Import RecordSet.
 From Common Require Import Res.
-From Core Require Import World Hoare Model Step Reach Proofs_C03b Proofs_C03f Proofs_C02b Proofs_C10b Proofs_C02c.
+From Core Require Import World Hoare Model Step Reach Proofs_C03b Proofs_C03f Proofs_C02b Proofs_C10b Proofs_C02c Proofs_C03c.
 Import ListNotations RecordSetNotations.
 Open Scope Z_scope.
 
@@ -19,6 +19,7 @@ Record running (w : world) (c : tlt) : Prop := {
   rn_state : pstate w = Playing \/ pstate w = Paused;
   rn_consume : consume w = false;
   rn_fresh : a_fresh w = false;
+  rn_atf : a_atf_done w = false;
   rn_script : script w = [];
   rn_in : In c (World.tl w);
   rn_play : forall y, In y (World.tl w) ->
@@ -30,7 +31,8 @@ Inductive cmd :=
 | CNext (x : tlt)            (* x: the entry get_next_tlid announces *)
 | CPrevious (x : tlt)
 | CPlay (i : Z) (x : tlt)    (* play(tlid=i), x the entry with that ID *)
-| CSeek (p : Z).
+| CSeek (p : Z)
+| CEot (x : tlt).            (* the natural end of the track; x: the entry get_eot_tlid announces *)
 
 Definition D := Deliver.
 Definition ops_of (st : ps) (c : cmd) : list op :=
@@ -41,10 +43,11 @@ Definition ops_of (st : ps) (c : cmd) : list op :=
   | CPrevious _ => match st with Paused => [Previous; D; D; D] | _ => [Previous; D; D; D; D] end
   | CPlay i _ => [Play (Some i); D; D; D; D]
   | CSeek p => [Seek p; D]
+  | CEot _ => [AboutToFinish; D; D]
   end.
 
 Definition target (c : tlt) (k : cmd) : tlt :=
-  match k with CNext x | CPrevious x | CPlay _ x => x | _ => c end.
+  match k with CNext x | CPrevious x | CPlay _ x | CEot x => x | _ => c end.
 
 (* what the client has to respect: the command fits the state, next/previous have a successor /
    predecessor (the announced one), the tlid exists, the seek stays within the track *)
@@ -56,6 +59,7 @@ Definition ok (w : world) (c : tlt) (k : cmd) : Prop :=
   | CPrevious x => previous_track (Some c) w = (Ok (Some x), w) /\ In x (World.tl w)
   | CPlay i x => 1 <= i /\ find (fun y => tlid y =? i) (World.tl w) = Some x
   | CSeek p => exists len, len_of w (trk c) = Some len /\ 0 <= p <= len
+  | CEot x => pstate w = Playing /\ announces_eot shuf w c x /\ In x (World.tl w)
   end.
 
 Lemma running_accepts w c x : running w c -> In x (World.tl w) -> accepts w x.
@@ -68,12 +72,13 @@ Lemma running_next w c x w' st :
   running w c -> In x (World.tl w) -> settled_on w' x -> stable w w' -> pstate w' = st ->
   (st = Playing \/ st = Paused) -> running w' x.
 Proof.
-  intros R Hin Hs (T & K & L & C & Rn & Rp & Sg & Sc & Fr) Hst Hor.
+  intros R Hin Hs (T & K & L & C & Rn & Rp & Sg & Sc & Fr & At) Hst Hor.
   constructor.
   - exact Hs.
   - rewrite Hst. exact Hor.
   - rewrite C. exact (rn_consume w c R).
   - apply Fr. exact (rn_fresh w c R).
+  - apply At. exact (rn_atf w c R).
   - apply Sc. exact (rn_script w c R).
   - rewrite T. exact Hin.
   - intros y Hy. rewrite T in Hy. unfold kind_of, len_of. rewrite K, L. exact (rn_play w c R y Hy).
@@ -96,6 +101,46 @@ Proof.
   split; [exact A|split; [exact B|exact C]].
 Qed.
 
+(* the end-of-track block leaves the audio layer's "fresh stream" flag cleared *)
+Lemma eot_block_fresh f x c len w :
+  settled_on w c -> pstate w = Playing -> consume w = false -> a_atf_done w = false ->
+  len_of w (trk c) = Some len -> accepts w x -> announces_eot shuf w c x ->
+  a_fresh (run_world shuf (S f) w [AboutToFinish; Deliver; Deliver]) = false.
+Proof.
+  intros [Hq Hp Hpp Hsa Hsp Hpf Hc Hb Ha] Hst Hco Hd Hlen Hacc Hann. rewrite Hst in Ha. destruct Ha as [Hu Has].
+  unfold run_world. cbn [fold_left].
+  assert (Hk := proj1 Hacc).
+  assert (Hbx : forall w0, tkinds w0 = tkinds w -> tkind_has_backend (kind_of w0 (trk x)) = true).
+  { intros w0 E. unfold kind_of in *. rewrite E, Hk. reflexivity. }
+  assert (Hns : pstate w <> Stopped) by (rewrite Hst; discriminate).
+  pose proof (about_to_finish_run shuf f x c len w Hns Hc Hlen Hu Has Hd Hacc Hann) as E1.
+  set (w1 := fx_about_to_finish x len w) in *.
+  assert (G1 : get_time_position w1 = (Ok (a_pos w1), fx_gtp w1)).
+  { apply (gtp_run w1 c); [exact Hpp|exact Hc|exact Hb]. }
+  rewrite (stepw_eq shuf (S f) AboutToFinish w RNone w1 _ _ (run_op_bind_none _ w tt w1 E1) G1).
+  set (w1' := fx_gtp w1).
+  assert (Q1 : queue w1' = [NPositionChanged 0; NStreamChanged (Some (trk x))]).
+  { unfold w1', w1, fx_gtp, fx_about_to_finish, fx_tail, fx_handler, fx_attempt. cbn. rewrite Hq. reflexivity. }
+  pose proof (deliver_run shuf (S f) _ _ w1' Q1) as D1. cbv beta iota in D1.
+  rewrite position_changed_noop in D1 by exact Hpp.
+  set (w2 := w1' <| queue := [NStreamChanged (Some (trk x))] |>) in *.
+  assert (G2 : get_time_position w2 = (Ok (a_pos w2), fx_gtp w2)).
+  { apply (gtp_run w2 c); [exact Hpp|exact Hc|exact Hb]. }
+  rewrite (stepw_eq shuf (S f) Deliver w1' RNone w2 _ _ (run_op_bind_none _ w1' tt w2 D1) G2).
+  set (w2' := fx_gtp w2).
+  assert (Q2 : queue w2' = [NStreamChanged (Some (trk x))]) by reflexivity.
+  pose proof (deliver_run shuf (S f) _ _ w2' Q2) as D2. cbv beta iota in D2.
+  set (w2q := w2' <| queue := [] |>) in *.
+  assert (S2 : on_stream_changed shuf (S f) w2q = (Ok tt, fx_promote x c len w2q)).
+  { apply stream_changed_run; try reflexivity; unfold w2q, w2', w2, w1', w1; cbn; assumption. }
+  rewrite S2 in D2.
+  set (w3 := fx_promote x c len w2q) in *.
+  assert (G3 : get_time_position w3 = (Ok (a_pos w3), fx_gtp w3)).
+  { apply (gtp_run w3 x); [exact Hpp|reflexivity|apply Hbx; reflexivity]. }
+  rewrite (stepw_eq shuf (S f) Deliver w2' RNone w3 _ _ (run_op_bind_none _ w2' tt w3 D2) G3).
+  reflexivity.
+Qed.
+
 (* one command keeps the player running and settled *)
 Theorem command_keeps_running f k c w :
   running w c -> ok w c k ->
@@ -103,7 +148,7 @@ Theorem command_keeps_running f k c w :
 Proof.
   intros R Hok. pose proof (rn_settled w c R) as Hs. pose proof (rn_consume w c R) as Hco.
   pose proof (rn_fresh w c R) as Hfr.
-  destruct k as [| |x|x|i x|p]; cbn [ok ops_of target] in *.
+  destruct k as [| |x|x|i x|p|x]; cbn [ok ops_of target] in *.
   - (* pause *)
     destruct (pause_agreement_full shuf (S f) c w Hs Hok Hfr) as (A & B & _ & C & _).
     apply (running_next w c c _ Paused R (rn_in w c R) A B C). right; reflexivity.
@@ -135,6 +180,17 @@ Proof.
     assert (Htl : World.tl w <> []) by (intro E; pose proof (rn_in w c R) as Hin; rewrite E in Hin; exact Hin).
     destruct (seek_agreement_full shuf f p c len w Hs Hns Htl Hlen Hp0 Hle) as (A & B & _ & C & _).
     apply (running_next w c c _ (pstate w) R (rn_in w c R) A B C). exact (rn_state w c R).
+  - (* the natural end of the track *)
+    destruct Hok as (Hst & Hann & Hin). pose proof (running_accepts w c x R Hin) as Hacc.
+    destruct (rn_play w c R c (rn_in w c R)) as [_ [len Hlen]].
+    pose proof (eot_block_fresh f x c len w Hs Hst Hco (rn_atf w c R) Hlen Hacc Hann) as Hfresh.
+    destruct (eot_block shuf f x c len w Hs Hst Hco (rn_atf w c R) Hlen Hacc Hann)
+      as (A & B & Dn & (T & K & L & C & Rn & Rp & Sg & Sc) & _).
+    apply (running_next w c x _ Playing R Hin A); [|exact B|left; reflexivity].
+    unfold stable. repeat split; try assumption.
+    + intros Hs0. rewrite Sc, Hs0. reflexivity.
+    + intros _. exact Hfresh.
+    + intros _. exact Dn.
 Qed.
 
 (* schedules *)
@@ -193,4 +249,21 @@ Proof.
          | |- In _ _ => vm_compute; auto
          | |- _ = _ => vm_compute; reflexivity
          end.
+Qed.
+
+Example schedule_example_eot :
+  all_ok shuf_concrete 10 w_example (mkTlt 1 0) [CEot (mkTlt 2 1); CPause; CResume; CEot (mkTlt 3 2)].
+Proof.
+  cbn [all_ok ok target ops_of].
+  split; [split; [vm_compute; reflexivity|split; [|vm_compute; auto]]|].
+  - apply (eot_seq shuf_concrete [] (mkTlt 1 0) (mkTlt 2 1) [mkTlt 3 2]); [vm_compute; reflexivity| |vm_compute; auto].
+    vm_compute. repeat constructor; cbn; intuition discriminate.
+  - split; [vm_compute; reflexivity|].
+    split; [vm_compute; reflexivity|].
+    split; [|exact I].
+    split; [vm_compute; reflexivity|split; [|vm_compute; auto]].
+    match goal with |- announces_eot _ ?w _ _ =>
+      apply (eot_seq shuf_concrete [mkTlt 1 0] (mkTlt 2 1) (mkTlt 3 2) [] w); [vm_compute; reflexivity| |vm_compute; auto]
+    end.
+    vm_compute. repeat constructor; cbn; intuition discriminate.
 Qed.
